@@ -35,7 +35,9 @@ HIER = {'B': B, 'S': S, 'Un': Un, 'H': H}
 ONLY = {'BaseException': BaseException, 'Exception': Exception, 'B': B, 'S': S, 'Un': Un, 'H': H}
 # 'Cancel': the awaitable ends with a CancelledError of its own (e.g. it awaited something that somebody else
 # cancelled) while nobody cancels the caller - for gather_excs this is a failure like any other BaseException
-OUTCOMES = [None, 'B', 'S', 'Un', 'H', 'Cancel']
+# 'G' / 'BG': the awaitable fails with an exception *group* (a TaskGroup inside it, say): the group is what was raised
+OUTCOMES = [None, 'B', 'S', 'Un', 'H', 'Cancel', 'G', 'BG']
+ONLY['ExceptionGroup'] = ExceptionGroup
 # 'done': a future that is already settled (result or exception) when gather_excs is called
 KINDS = ['coro', 'task', 'future', 'done']
 ONLY['CancelledError'] = aio.CancelledError
@@ -66,7 +68,7 @@ class C20(Check):
     def cases(self, tier, seed):
         maxn = 3 if tier == 'quick' else 4
         for n in range(0, maxn + 1):
-            for combo in itertools.product(range(len(OUTCOMES)), repeat=n):
+            for combo in itertools.product(range(6), repeat=n):
                 for perm in itertools.permutations(range(n)):
                     for oi, only in enumerate(ONLY):
                         yield {'out': list(combo), 'order': list(perm), 'only': only,
@@ -78,7 +80,19 @@ class C20(Check):
             rng.shuffle(perm)
             yield {'out': [rng.randrange(len(OUTCOMES)) for _ in range(n)], 'order': perm,
                    'only': rng.choice(list(ONLY)), 'kinds': [rng.choice(KINDS) for _ in range(n)],
-                   'ties': rng.random() < 0.2}
+                   'ties': rng.random() < 0.2,
+                   # gathers that take seconds or a minute (virtual), not milliseconds
+                   'scale': rng.choice([1, 1, 1, 2000, 20000])}
+        # many awaitables at once, on two event loops one after the other in the same process
+        for _ in range(60 if tier == 'quick' else 1500):
+            n = rng.choice([65, 70, 100, 130, 200])
+            perm = list(range(n))
+            rng.shuffle(perm)
+            out = [0] * n
+            for _ in range(rng.randint(1, 6)):
+                out[rng.randrange(n)] = rng.randrange(1, 5)
+            yield {'out': out, 'order': perm, 'only': rng.choice(['BaseException', 'Exception', 'B']),
+                   'kinds': [rng.choice(KINDS[:3]) for _ in range(n)], 'big': True}
 
     def run_case(self, case):
         A = self.A
@@ -92,16 +106,28 @@ class C20(Check):
             def body():
                 loop = aio.new_event_loop()
                 aio.set_event_loop(loop)
+                nonlocal_loop = [loop]
                 log = s.log
 
                 def make(which):
-                    excs = [(aio.CancelledError(i, which) if OUTCOMES[o] == 'Cancel' else HIER[OUTCOMES[o]](i, which))
-                            if OUTCOMES[o] else None for i, o in enumerate(case['out'])]
+                    def mk(i, o):
+                        name = OUTCOMES[o]
+                        if name is None:
+                            return None
+                        if name == 'Cancel':
+                            return aio.CancelledError(i, which)
+                        if name == 'G':
+                            return ExceptionGroup(f'group {i} {which}', [S(i, 'leaf'), Un(i, 'leaf')])
+                        if name == 'BG':
+                            return BaseExceptionGroup(f'bgroup {i} {which}', [H(i, 'leaf'), B(i, 'leaf')])
+                        return HIER[name](i, which)
+                    excs = [mk(i, o) for i, o in enumerate(case['out'])]
 
                     async def aw(i):
                         log.append(('start', which, i, s.now))
                         try:
                             d = (rank[i] + 1) * U if not case.get('ties') else ((rank[i] // 2) + 1) * U
+                            d *= case.get('scale', 1)
                             await aio.sleep(d)
                             if excs[i] is not None:
                                 raise excs[i]
@@ -117,7 +143,7 @@ class C20(Check):
                     for i in range(n):
                         k = case['kinds'][i]
                         if k == 'done' and not isinstance(excs[i], aio.CancelledError):
-                            fut = loop.create_future()
+                            fut = nonlocal_loop[0].create_future()
                             log.append(('start', which, i, s.now))
                             log.append(('finish', which, i, s.now))
                             if excs[i] is not None:
@@ -128,10 +154,10 @@ class C20(Check):
                         elif k == 'coro' or k == 'done':
                             aws.append(aw(i))
                         elif k == 'task':
-                            aws.append(loop.create_task(aw(i)))
+                            aws.append(nonlocal_loop[0].create_task(aw(i)))
                         else:
-                            fut = loop.create_future()
-                            t = loop.create_task(aw(i))
+                            fut = nonlocal_loop[0].create_future()
+                            t = nonlocal_loop[0].create_task(aw(i))
 
                             def copy(t, fut=fut):
                                 if t.cancelled():
@@ -145,27 +171,37 @@ class C20(Check):
                     return aws, excs
 
                 async def m():
+                    base = len(log)
                     aws, excs = make('g')
                     got = []
                     finished_at_first = None
                     async for e in A.gather_excs(aws, only):
                         if finished_at_first is None:
-                            finished_at_first = sum(1 for x in log if x[0] == 'finish' and x[1] == 'g')
+                            finished_at_first = sum(1 for x in log[base:] if x[0] == 'finish' and x[1] == 'g')
                         got.append(e)
                     box['g'] = (got, excs, finished_at_first,
-                                sum(1 for x in log if x[0] == 'finish' and x[1] == 'g'))
+                                sum(1 for x in log[base:] if x[0] == 'finish' and x[1] == 'g'))
                     aws, excs = make('r')
                     try:
                         r = await A.raise_first_exc(aws, only)
                         box['r'] = ('ret', r, excs)
                     except BaseException as e:     # noqa
                         box['r'] = ('raise', e, excs)
-                    box['r_finished'] = sum(1 for x in log if x[0] == 'finish' and x[1] == 'r')
+                    box['r_finished'] = sum(1 for x in log[base:] if x[0] == 'finish' and x[1] == 'r')
                     # leave nothing behind
-                    await aio.sleep((n + 2) * U)
+                    await aio.sleep((n + 2) * U * case.get('scale', 1))
                     box['late_finish'] = sum(1 for x in log if x[0] == 'finish')
                 loop.run_until_complete(m())
                 loop.close()
+                if case.get('big'):
+                    # a second event loop in the same process: module-level state must not be tied to the first
+                    box['first'] = dict(box)
+                    log.append(('second_loop',))
+                    loop2 = aio.new_event_loop()
+                    aio.set_event_loop(loop2)
+                    nonlocal_loop[0] = loop2
+                    loop2.run_until_complete(m())
+                    loop2.close()
             s.spawn(body, 'L')
 
         r = simrt.execute(main, simrt.Strategy('none'), lines=False, max_steps=50000, watchdog=30.0)
@@ -177,6 +213,29 @@ class C20(Check):
             res.violate('C20:did-not-finish', f'gather_excs/raise_first_exc did not complete: {r.verdict} {r.thread_errors[:1]}')
             return res
         st['executions'] += 1
+        if case.get('big'):
+            st['big_two_loop_cases'] += 1
+            # the first loop's round is judged with the same rules (recursively, on a copy of what it recorded)
+            first = box.get('first')
+            if first is None or 'r' not in first:
+                res.violate('C20:did-not-finish', 'the first of two loops did not complete')
+                return res
+            for rnd, bx in (('first loop', first), ('second loop', box)):
+                g_, e_, ff_, fe_ = bx['g']
+                ex_ = [e for e in e_ if e is not None and isinstance(e, only)]
+                if len(g_) != len(ex_) or any(a is not b for a, b in zip(g_, ex_)):
+                    res.violate('C20:wrong-exceptions', f'{rnd}: yielded exceptions are not exactly the raised instances of `only` in input order',
+                                got=[repr(e) for e in g_][:8], expected=[repr(e) for e in ex_][:8])
+                if fe_ != n or bx['r_finished'] != n:
+                    res.violate('C20:not-run-to-completion', f'{rnd}: some awaitable never ran to completion', finished=fe_, total=n)
+                k_, v_, e2_ = bx['r']
+                ex2_ = [e for e in e2_ if e is not None and isinstance(e, only)]
+                if (ex2_ and (k_ != 'raise' or v_ is not ex2_[0])) or (not ex2_ and (k_ != 'ret' or v_ is not None)):
+                    res.violate('C20:raise_first_exc-wrong', f'{rnd}: raise_first_exc gave the wrong answer', got=repr(v_)[:100])
+            res.nontrivial = True
+            st['nontrivial'] += 1
+            res.sample = {'big': True, 'n': n, 'only': case['only']}
+            return res
         got, excs, fin_first, fin_end = box['g']
         exp = [e for e in excs if e is not None and isinstance(e, only)]
 
@@ -221,6 +280,10 @@ class C20(Check):
             st['baseexception_only_raised'] += 1
         if any(isinstance(e, aio.CancelledError) for e in excs if e is not None):
             st['own_cancellederror_raised'] += 1
+        if any(isinstance(e, BaseExceptionGroup) for e in excs if e is not None):
+            st['exception_group_raised'] += 1
+        if case.get('scale', 1) > 1:
+            st['long_running_gather'] += 1
         if 'done' in case['kinds']:
             st['already_settled_future_in_input'] += 1
         res.nontrivial = n >= 2 and ((nfail >= 1 and reordered) or nfail >= 2)
@@ -232,7 +295,8 @@ class C20(Check):
 
     def floors(self, tier):
         k = 1 if tier == 'quick' else 10
-        return {'own_cancellederror_raised': 5000 * k, 'already_settled_future_in_input': 5000 * k, 'nontrivial': 10000 * k, 'two_or_more_failures': 8000 * k, 'finish_order_differs_with_failure': 8000 * k,
+        return {'exception_group_raised': 3000 * k, 'long_running_gather': 3000 * k, 'big_two_loop_cases': 40 * k,
+                'own_cancellederror_raised': 5000 * k, 'already_settled_future_in_input': 5000 * k, 'nontrivial': 10000 * k, 'two_or_more_failures': 8000 * k, 'finish_order_differs_with_failure': 8000 * k,
                 'subclass_matched': 3000 * k, 'baseexception_only_raised': 5000 * k}
 
     def extra_evidence(self, tier, agg):
